@@ -1,5 +1,8 @@
+pub mod branch;
+pub mod drcp;
 pub mod expl;
 pub mod features;
+pub mod hist;
 pub mod iter;
 pub mod opt;
 pub mod solve;
